@@ -143,6 +143,12 @@ func ParseIngress(ingress string) (*Ingress, error) {
 
 	u.Path = strings.TrimRight(u.Path, "/")
 
+	// the path becomes a route prefix; the router would read these characters as pattern syntax
+	// (and panics at start-up on a misplaced wildcard) instead of matching them literally.
+	if strings.ContainsAny(u.Path, "*{}") {
+		return nil, fmt.Errorf("path must not contain any of '*', '{' or '}'")
+	}
+
 	return &Ingress{
 		URL: u,
 	}, nil
